@@ -21,6 +21,7 @@ mod heapcase;
 mod histcase;
 mod lexcase;
 mod parsecase;
+mod sesscase;
 mod spancase;
 
 thread_local! {
@@ -39,6 +40,7 @@ fn run_case(case: &J) -> J {
         Some("heap") => heapcase::run(case),
         Some("eval") => evalcase::run(case),
         Some("hist") => histcase::run(case),
+        Some("sess") => sesscase::run(case),
         Some("lex") => lexcase::run(case),
         Some("parse") => parsecase::run(case),
         Some("spans") => spancase::run(case),
